@@ -1,6 +1,7 @@
 #!/usr/bin/env python3
 """Apply every seeded change to /repo in turn, run the quick check of its property, undo. Reports which are detected."""
 import json, os, subprocess, sys, glob
+os.environ.setdefault("VERIF_EVIDENCE_DIR", "/tmp/verif-evidence-seeded")   # not the committed evidence
 env = dict(os.environ, GOFLAGS="-mod=mod", GOPROXY="off", GOSUMDB="off", GOTOOLCHAIN="local")
 def sh(cmd, cwd=None):
     r = subprocess.run(cmd, shell=True, cwd=cwd, env=env, capture_output=True, text=True)
